@@ -1,6 +1,6 @@
 (* GENERATED ONCE by tools/pin.py from Properties/C05.v and committed: the pinned statements. *)
 From VF.Properties Require C05.
-From VF Require Import Base Gen_Errors Lexer Response Tree Tree_proofs.
+From VF Require Import Base Gen_Errors Lexer Grammar Response Tree Tree_proofs HeaderSpec MessageSpec Message_proofs.
 Open Scope N_scope.
 
 Section C05_statements.
@@ -26,4 +26,27 @@ Goal forall fu (root leaf : tree D) s leaf' s' tok rest,
   (is_data tok = true \/ tok = TDataSeparator) ->
   unit_loop (S fu) root leaf s = Val (with_toks s' rest, Some (std_error ParameterNotAllowed)).
 Proof. apply VF.Properties.C05.C05_leftover_is_108. Qed.
+Goal forall (root : tree D) (m : msg) (d : D) (f : fmt),
+  wf_tree root -> wf_msg m = true ->
+  run root (render_msg m) d f = Val (spec_message root m d f).
+Proof. apply VF.Properties.C05.C05_message_semantics. Qed.
+Goal forall (root : tree D) (m : msg) (d : D) (f : fmt),
+  wf_tree root -> wf_msg m = true ->
+  exists s e, run_tokens root (map IOk (tokens_of m)) d f = Val (s, e) /\
+    (x_dev s, x_fmt s, x_trace s, e) = spec_units root root (m_units m) d f [].
+Proof. apply VF.Properties.C05.C05_message_semantics_tokens. Qed.
+Goal forall (root : tree D) m1 m2 d f, wf_tree root -> wf_msg m1 = true -> wf_msg m2 = true ->
+  map (fun uw => (u_header (fst uw), unit_data (fst uw))) (m_units m1)
+    = map (fun uw => (u_header (fst uw), unit_data (fst uw))) (m_units m2) ->
+  run root (render_msg m1) d f = run root (render_msg m2) d f.
+Proof. apply VF.Properties.C05.C05_layout_independent. Qed.
+Goal forall (root ctx : tree D) us d f tr d' f' tr',
+  spec_units root ctx us d f tr = (d', f', tr', None) -> length tr' = (length tr + length us)%nat.
+Proof. apply VF.Properties.C05.C05_spec_units_ok_trace. Qed.
+Goal forall (root ctx : tree D) us d f tr d' f' tr' e,
+  spec_units root ctx us d f tr = (d', f', tr', Some e) -> (length tr' <= length tr + length us)%nat.
+Proof. apply VF.Properties.C05.C05_spec_units_err_trace. Qed.
+Goal forall (root ctx : tree D) us d f tr d' f' tr' e,
+  spec_units root ctx us d f tr = (d', f', tr', e) -> exists added, tr' = tr ++ added.
+Proof. apply VF.Properties.C05.C05_spec_units_trace_extends. Qed.
 End C05_statements.
